@@ -13,6 +13,7 @@ mod props;
 mod sched;
 mod selftest;
 mod show;
+mod tyseed;
 mod tables;
 
 use common::*;
@@ -72,13 +73,37 @@ fn main() {
             let mut imp = std::io::BufWriter::new(
                 std::fs::File::create(outdir.join("impl.txt")).unwrap(),
             );
-            for line in &g.cases {
+            // watchdog: a case that runs longer than 60 s is a hang (C05); the runner picks up
+            // current_case.txt / hang.txt when this process dies
+            let progress = std::sync::Arc::new(std::sync::atomic::AtomicUsize::new(0));
+            {
+                let progress = progress.clone();
+                let outdir = outdir.clone();
+                std::thread::spawn(move || {
+                    let mut last = usize::MAX;
+                    let mut since = std::time::Instant::now();
+                    loop {
+                        std::thread::sleep(std::time::Duration::from_millis(500));
+                        let cur = progress.load(std::sync::atomic::Ordering::Relaxed);
+                        if cur != last { last = cur; since = std::time::Instant::now(); }
+                        else if since.elapsed().as_secs() > 60 {
+                            let _ = std::fs::write(outdir.join("hang.txt"), format!("{}", cur));
+                            std::process::exit(98);
+                        }
+                    }
+                });
+            }
+            let cur_path = outdir.join("current_case.txt");
+            for (idx, line) in g.cases.iter().enumerate() {
+                progress.store(idx, std::sync::atomic::Ordering::Relaxed);
+                let _ = std::fs::write(&cur_path, line);
                 let r = exec_line(line, &mut obs);
                 writeln!(cases, "{}", line).unwrap();
                 writeln!(imp, "{}", r).unwrap();
             }
             cases.flush().unwrap();
             imp.flush().unwrap();
+            let _ = std::fs::remove_file(&cur_path);
             let stats = serde_json::json!({
                 "evaluations": g.cases.len(),
                 "corpus_cases": g.corpus_cases,
@@ -107,7 +132,7 @@ fn main() {
                 writeln!(out, "ORACLE {}", serde_json::to_string(v).unwrap()).unwrap();
             }
         }
-        Some("selftest") => selftest::run(),
+        Some("selftest") => { selftest::run(); selftest::run_ty(); }
         Some("tables") => {
             let s = tables::measure();
             let path = &args[2];
